@@ -299,6 +299,73 @@ package logqlmetric
 //@   ensures[owns-what-it-opened] ret1 == nil ==> opened() == old(opened()) + holds(ret0) && holds(ret0) >= 0
 //@   ensures[nothing-left-open-on-error] ret1 != nil ==> opened() == old(opened())
 
+// A failing source is never turned into a (truncated) result: every successful return was
+// preceded by an Err() check on that path, and a non-nil Err() becomes the returned error.
 //@ func ReadStepResponse
-//@   trusted
+//@   capture e0 = call(iter.Err, 0)
+//@   capture e1 = call(iter.Err, 1)
 //@   modifies *
+//@   loop 0 modifies *
+//@   loop 1 modifies *
+//@   loop 2 modifies *
+//@   ensures[instant-error-surfaces] e0_called && e0_r0 != nil ==> ret1 != nil
+//@   ensures[range-error-surfaces]   e1_called && e1_r0 != nil ==> ret1 != nil
+//@   ensures[no-result-without-error-check] ret1 == nil ==> e0_called || e1_called
+
+//@ func (*rangeAggIterator).Close
+//@   capture c = call(i.iter.Close, 0)
+//@   modifies opened(), holds(i.iter)
+//@   ensures[closes-source] c_called && ret0 == c_r0 && opened() == old(opened()) - old(holds(i.iter)) && holds(i.iter) == 0
+//@ func (*rangeAggIterator).Err
+//@   capture c = call(i.iter.Err, 0)
+//@   modifies nothing
+//@   ensures[forwards-source-error] c_called && ret0 == c_r0
+
+//@ func (*vectorAggIterator).Close
+//@   capture c = call(i.iter.Close, 0)
+//@   modifies opened(), holds(i.iter)
+//@   ensures[closes-source] c_called && ret0 == c_r0 && opened() == old(opened()) - old(holds(i.iter)) && holds(i.iter) == 0
+//@ func (*vectorAggIterator).Err
+//@   capture c = call(i.iter.Err, 0)
+//@   modifies nothing
+//@   ensures[forwards-source-error] c_called && ret0 == c_r0
+
+//@ func (*vectorAggHeapIterator).Close
+//@   capture c = call(i.iter.Close, 0)
+//@   modifies opened(), holds(i.iter)
+//@   ensures[closes-source] c_called && ret0 == c_r0 && opened() == old(opened()) - old(holds(i.iter)) && holds(i.iter) == 0
+//@ func (*vectorAggHeapIterator).Err
+//@   capture c = call(i.iter.Err, 0)
+//@   modifies nothing
+//@   ensures[forwards-source-error] c_called && ret0 == c_r0
+
+//@ func (*literalBinOpIterator).Close
+//@   capture c = call(i.iter.Close, 0)
+//@   modifies opened(), holds(i.iter)
+//@   ensures[closes-source] c_called && ret0 == c_r0 && opened() == old(opened()) - old(holds(i.iter)) && holds(i.iter) == 0
+//@ func (*literalBinOpIterator).Err
+//@   capture c = call(i.iter.Err, 0)
+//@   modifies nothing
+//@   ensures[forwards-source-error] c_called && ret0 == c_r0
+
+//@ func (*binOpIterator).Close
+//@   capture l = call(i.left.Close, 0)
+//@   capture r = call(i.right.Close, 0)
+//@   modifies opened(), holds(*)
+//@   ensures[closes-both-sides] l_called && r_called && ((l_r0 != nil || r_r0 != nil) == (ret0 != nil))
+//@ func (*binOpIterator).Err
+//@   capture l = call(i.left.Err, 0)
+//@   capture r = call(i.right.Err, 0)
+//@   modifies nothing
+//@   ensures[either-side-error-surfaces] l_called && r_called && ((l_r0 != nil || r_r0 != nil) == (ret0 != nil))
+
+//@ func (*mergeBinOpIterator).Close
+//@   capture l = call(i.left.Close, 0)
+//@   capture r = call(i.right.Close, 0)
+//@   modifies opened(), holds(*)
+//@   ensures[closes-both-sides] l_called && r_called && ((l_r0 != nil || r_r0 != nil) == (ret0 != nil))
+//@ func (*mergeBinOpIterator).Err
+//@   capture l = call(i.left.Err, 0)
+//@   capture r = call(i.right.Err, 0)
+//@   modifies nothing
+//@   ensures[either-side-error-surfaces] l_called && r_called && ((l_r0 != nil || r_r0 != nil) == (ret0 != nil))
